@@ -3,7 +3,9 @@
 Workload: an arrival process creates caller tasks at scripted virtual instants (gaps are multiples
 of period/4); the wrapped function is a test double that records the virtual instant at which its
 body starts, runs for a scripted duration and ends with a unique value or exception. Optionally one
-caller is cancelled at a scripted instant.
+caller is cancelled at a scripted instant. In a part of the histories the first few calls (at most `limit`, so that nobody
+ever waits on the first loop) are made on one event loop and the rest on a second loop created afterwards; the wrapper and the
+clock are the same, so the window bound spans both.
 
 Oracle over the recorded (arrival a_i, start s_i, outcome) history:
   window        for every start s_i: #{j : s_i <= s_j < s_i + period} <= limit
@@ -40,7 +42,7 @@ ASSUMPTIONS = [
     "how long a call that has to wait is delayed is unspecified beyond the window bound and quiescence",
     "arrival order of same-instant callers is the order in which the harness entered the wrapper",
 ]
-MINIMUMS = {"monitor:window": 3000, "bursts_over_limit": 1000, "calls_that_waited": 1000, "monitor:no-needless-delay": 3000}
+MINIMUMS = {"monitor:window": 3000, "bursts_over_limit": 1000, "calls_that_waited": 1000, "monitor:no-needless-delay": 3000, "histories_over_two_event_loops": 300}
 JOBS = {"quick": 4, "thorough": 16}
 LEVEL_TEXT = (
     "Every arrival pattern of up to 5 calls with gaps from {0, 1/4, 1/2, 1, 5/4, 2} periods is run for limits 1-4 (period as float and as timedelta - sub-second, a day, 36 hours, a week) in exact "
@@ -92,7 +94,10 @@ def run_case(R: Recorder, case: dict[str, Any], verbose: bool = False) -> None:
         wrapped = throttle(limit=limit, period=timedelta(seconds=period) if pform == "timedelta" else period)(function)
     got: dict[str, Any] = {}
 
-    async def main(loop: Any) -> None:
+    split = case.get("split")  # the first `split` calls (never more than `limit`, so nobody ever waits) are made on one event
+    # loop, the rest on a second loop created afterwards - same wrapper, same process-wide clock
+
+    async def main(loop: Any, lo: int = 0, hi: int = n) -> None:
         tasks: list[asyncio.Task[Any]] = []
 
         async def caller(i: int) -> None:
@@ -106,7 +111,8 @@ def run_case(R: Recorder, case: dict[str, Any], verbose: bool = False) -> None:
                 results[i] = ("raise", exc)
 
         async def arrive() -> None:
-            for i, g in enumerate(gaps):
+            for i in range(lo, hi):
+                g = gaps[i]
                 if g:
                     await asyncio.sleep(g * q)
                 tasks.append(loop.create_task(caller(i)))
@@ -120,10 +126,15 @@ def run_case(R: Recorder, case: dict[str, Any], verbose: bool = False) -> None:
         else:
             await arrive()
             await asyncio.gather(*tasks, return_exceptions=True)
-        got["done"] = True
+        got["done"] = hi == n
 
     with patched_time(clock):
-        status, value, loop = run_virtual(main, clock=clock, max_iterations=100000)
+        if split:
+            status, value, loop = run_virtual(lambda lp: main(lp, 0, split), clock=clock, max_iterations=100000)
+            if status == "ok":
+                status, value, loop = run_virtual(lambda lp: main(lp, split, n), clock=clock, max_iterations=100000)
+        else:
+            status, value, loop = run_virtual(main, clock=clock, max_iterations=100000)
 
     # ---- classify the case ----------------------------------------------------------------------------
     arr = [0.0] * n
@@ -131,12 +142,16 @@ def run_case(R: Recorder, case: dict[str, Any], verbose: bool = False) -> None:
     for i, g in enumerate(gaps):
         t += g * q
         arr[i] = t
+    if split:
+        R.count("histories_over_two_event_loops")
     burst = any(sum(1 for b in arr if a <= b < a + period) > limit for a in arr)
     boundary = any(abs(b - a) == period for a in arr for b in arr)
     R.case(case, nontrivial=burst or boundary)
     if burst:
         R.count("bursts_over_limit")
     where0 = {"limit1": limit == 1, "pform": pform, "cancel": cancel is not None}
+    if split:
+        where0["two_loops"] = True
     if verbose:
         print(f"status={status} arrivals={arrivals} starts={starts} results={ {k: v[0] for k, v in results.items()} }")
     if status != "ok" or not got.get("done"):
@@ -208,6 +223,12 @@ def exhaustive(tier: str):  # noqa: ANN201
     for n in (1, 2, 3):
         for gaps in itertools.product(GAPS, repeat=n - 1):
             yield {"limit": 1, "period": 1, "pform": "float", "gaps": [0, *gaps], "deco": "bare"}
+    # one wrapper used from two consecutive event loops (e.g. two asyncio.run calls): the window does not care about loops
+    for limit in (1, 2, 3):
+        for n in range(2, 5):
+            for gaps in itertools.product(GAPS, repeat=n - 1):
+                for split in range(1, min(limit, n - 1) + 1):
+                    yield {"limit": limit, "period": 1.0, "pform": "float" if (n + limit) % 2 else "timedelta", "gaps": [0, *gaps], "split": split}
 
 
 def random_case(rng: random.Random) -> dict[str, Any]:
@@ -220,6 +241,13 @@ def random_case(rng: random.Random) -> dict[str, Any]:
                             "durs": [rng.choice([0, 0, 1, 4, 6, 12]) for _ in range(n)], "fails": [rng.random() < 0.15 for _ in range(n)], "scoped": rng.random() < 0.3}
     if rng.random() < 0.4:
         case["cancel"] = [rng.randrange(n), rng.choice([0, 1, 2, 3, 5])]
+    if rng.random() < 0.2:
+        case["split"] = rng.randint(1, min(limit, n - 1))
+        case["scoped"] = False
+        for i in range(case["split"]):
+            case["durs"][i] = 0
+        if case.get("cancel") and case["cancel"][0] < case["split"]:
+            del case["cancel"]
     return case
 
 
